@@ -1,7 +1,8 @@
 (* C02  Compact index returns exactly the documents whose DNF is satisfied.  Statements only.
    The compact scan is the generic conjunction scan with needf c = max 1 (size c). *)
 From Coq Require Import List NArith ZArith Bool Permutation.
-From BE Require Import Model.Scan Proofs.ScanProof.
+From BE Require Import Model.Scan Model.Cursor Proofs.ScanProof Proofs.Refine Proofs.ConcreteScan.
+From BE Require Model.Index Gen.IdsGen.
 Import ListNotations.
 Local Open Scope N_scope.
 
@@ -15,4 +16,19 @@ Theorem C02_generic_scan_exact : forall (needf : N -> nat) (os : list stream),
             (forall x, In x r <-> cnt (x, false) os = O /\ (needf x <= cnt (x, true) os)%nat) /\ NoDup r.
 Proof. exact scan_correct. Qed.
 
+(* the CONCRETE compact loop of the executable model (Model/Index.v: cp_loop; need = max 1 (size of the
+   smallest conjunction), exit when need exceeds the live cursors, exhausted cursors trimmed after every
+   round): terminates within its fuel and reports, once each, exactly the conjunctions with no exclude
+   entry and at least `cneed c` include entries; cneed c = max 1 (ConjID.Size c) for every real id *)
+Theorem C02_concrete_compact_loop_exact : forall cs ss,
+  Forall2 Rel cs ss -> Forall live cs -> (forall c, (cnt (c, true) ss <= cneed c)%nat) ->
+  exists res, Index.cp_loop (S (Index.fc_total cs)) (sort_fcursors cs) [] = Some res /\
+    (forall x, In x (map snd res) <-> satf cneed ss x) /\ NoDup (map snd res) /\
+    (forall h, In h res -> fst h = IdsGen.ConjID_DocID (snd h)).
+Proof. exact cp_loop_correct. Qed.
+
+Theorem C02_need_is_the_codes : forall c, c < 2^60 -> Z.to_nat (Z.max 1 (IdsGen.ConjID_Size c)) = cneed c.
+Proof. exact cneed_eq. Qed.
+
 Print Assumptions C02_generic_scan_exact.
+Print Assumptions C02_concrete_compact_loop_exact.
